@@ -21,6 +21,7 @@ type expandCase struct {
 	Tuples []jtuple `json:"tuples"` // in storage order; empty entries are skipped
 	Depth  int      `json:"d"`
 	Wide   int      `json:"wn"`
+	Faults bool     `json:"faults"`
 }
 
 type expandIn struct {
@@ -171,6 +172,36 @@ func famExpand(t *testing.T) {
 					res["grpc_client"] = &xtree{T: "nil"}
 				}
 			}()
+		}
+		// storage faults during an expand (every fifth case): each SQL statement of the request fails once - with a generic
+		// error and with SQLite's lock conflict - and the reply must be an error or the fault-free tree, never a part of it
+		if c.Faults && code == 200 {
+			base, _ := json.Marshal(res["rest"])
+			sqlCtl.begin(0, 0)
+			e.do("A", e.rr, "GET", "/relation-tuples/expand?"+q.Encode(), nil)
+			n := len(sqlCtl.end())
+			var fl []map[string]any
+			for k := 1; k <= n; k++ {
+				for _, flavour := range []string{"generic", "locked"} {
+					if flavour == "locked" {
+						sqlCtl.beginLocked(k)
+					} else {
+						sqlCtl.begin(k, 0)
+					}
+					fc, fb := e.do("A", e.rr, "GET", "/relation-tuples/expand?"+q.Encode(), nil)
+					sqlCtl.end()
+					same := false
+					if fc == 200 {
+						var at ketoapi.Tree[*ketoapi.RelationTuple]
+						if json.Unmarshal(fb, &at) == nil {
+							got, _ := json.Marshal(fromAPITree(&at))
+							same = string(got) == string(base)
+						}
+					}
+					fl = append(fl, map[string]any{"k": k, "flavour": flavour, "status": fc, "same": same})
+				}
+			}
+			res["faults"], res["nstmts"] = fl, n
 		}
 		// check decisions for the users of the universe (rewrite-free namespace, depth not binding)
 		if c.Wide == 0 {
